@@ -8,7 +8,7 @@ reported feasible must be conflict-free and one of Adsg.allRows.
 from .. import gen
 from . import c02
 
-KINDS = {'over-pruned', 'offered-undeclared', 'infeasible-state-but-completable', 'conflict-in-feasible-instance',
+KINDS = {'api-exc', 'over-pruned', 'offered-undeclared', 'infeasible-state-but-completable', 'conflict-in-feasible-instance',
          'infeasible-graph-but-admissible-exists', 'feasible-leaf-not-admissible', 'reachable-set-missing',
          'no-option-but-feasible'}
 RULE = ('as C02 but every generated graph carries 1-3 incompatibility constraints (placed on start / option / derived '
@@ -54,7 +54,7 @@ def check_graph(ctx, rep, spec, stream):
 
 
 def run(ctx, rep):
-    n = ctx.pick(600, 20000)
+    n = ctx.pick(1500, 30000)
     weights = [s for s, k in c02.STREAMS for _ in range(k)]
     i = 0
     for i in range(n):
